@@ -488,9 +488,14 @@ func handleSUNION(params internal.HandlerFuncParams) ([]byte, error) {
 
 	var sets []*Set
 
+	keyExists := params.KeysExist(params.Context, keys.ReadKeys)
 	values := params.GetValues(params.Context, keys.ReadKeys)
-	for key, value := range values {
-		set, ok := value.(*Set)
+	for _, key := range keys.ReadKeys {
+		if !keyExists[key] {
+			// A key that does not exist contributes no members.
+			continue
+		}
+		set, ok := values[key].(*Set)
 		if !ok {
 			return nil, fmt.Errorf("value at key %s is not a set", key)
 		}
@@ -512,9 +517,14 @@ func handleSUNIONSTORE(params internal.HandlerFuncParams) ([]byte, error) {
 
 	var sets []*Set
 
+	keyExists := params.KeysExist(params.Context, keys.ReadKeys)
 	values := params.GetValues(params.Context, keys.ReadKeys)
-	for key, value := range values {
-		set, ok := value.(*Set)
+	for _, key := range keys.ReadKeys {
+		if !keyExists[key] {
+			// A key that does not exist contributes no members.
+			continue
+		}
+		set, ok := values[key].(*Set)
 		if !ok {
 			return nil, fmt.Errorf("value at key %s is not a set", key)
 		}
